@@ -59,6 +59,17 @@ def cases(tier, seed):
         for drive in ("field", "tdep"):
             for scr in (False,) if quick else (False, True):
                 out.append(dict(fam="none", dev=d, drive=drive, screening=scr))
+    # histories: several solves on the *same* device / mesh object with different terminal values
+    seq_vals = ["0", "None", "1"] if quick else ["0", "None", "1", "0.6+0.8j"]
+    for d in devs[:2]:
+        for hist in itertools.product(seq_vals, repeat=2):
+            if hist[0] == hist[1]:
+                continue
+            out.append(dict(fam="seq", dev=d, history=list(hist), drive="tdep"))
+        if not quick:
+            for hist in itertools.product(seq_vals[:3], repeat=3):
+                if len(set(hist)) > 1:
+                    out.append(dict(fam="seq", dev=d, history=list(hist), drive="both"))
     return out
 
 
@@ -103,7 +114,33 @@ def terminal_sites(dev, rm, boundary_sites, xi):
     return np.array(sorted(set(idx)), int), amb
 
 
-def run_pin(case):
+def run_seq(case):
+    """every solve of a history on one fresh device object is checked like a single run"""
+    from .. import zoo
+
+    res = CaseResult()
+    res.key = case_key(case)
+    dev = zoo.device(case["dev"], memo=False)  # fresh Device and Mesh objects: the history starts clean
+    for i, val in enumerate(case["history"]):
+        sub = dict(fam="pin", dev=case["dev"], value=val, drive=case["drive"], screening=False)
+        r = run_pin(sub, dev=dev, path=f"seq{i}.h5")
+        for v in r.violations:
+            v["sig"]["after_history"] = ",".join(case["history"][:i]) or "none"
+            v["detail"]["history"] = case["history"]
+            res.violations.append(v)
+        res.states.update(f"{res.key}:{i}:{s}" for s in r.states)
+        res.transitions += r.transitions
+        for k, c in r.counts.items():
+            res.count(k, c)
+        for k, c in r.resid.items():
+            res.residual(k, c)
+    res.executions = len(case["history"])
+    res.nontrivial = True
+    res.outcome = "seq"
+    return res
+
+
+def run_pin(case, dev=None, path="out.h5"):
     import h5py
     import tdgl
 
@@ -111,12 +148,13 @@ def run_pin(case):
 
     res = CaseResult()
     res.key = case_key(case)
-    dev = zoo.device(case["dev"])
+    if dev is None:
+        dev = zoo.device(case["dev"])
     v = VALUES[case["value"]]
     dt = 2.0**-6
     nsteps = 8
     opts = tdgl.SolverOptions(
-        solve_time=nsteps * dt, dt_init=dt, dt_max=dt, adaptive=False, save_every=1, output_file="out.h5", terminal_psi=v,
+        solve_time=nsteps * dt, dt_init=dt, dt_max=dt, adaptive=False, save_every=1, output_file=path, terminal_psi=v,
         include_screening=case["screening"], screening_tolerance=1e-2, progress_interval=10**9,
     )
     kw = _drive(case["dev"], case["drive"])
@@ -126,7 +164,7 @@ def run_pin(case):
         if "converge" not in str(exc):
             raise
         res.count("solver_refused")
-    rm = drivers.read_raw_mesh("out.h5")
+    rm = drivers.read_raw_mesh(path)
     bsites = np.unique(rm.edges[rm.bidx].ravel())
     xi = dev.layer.coherence_length
     tsites, amb = terminal_sites(dev, rm, bsites, xi)
@@ -136,8 +174,8 @@ def run_pin(case):
     if not np.array_equal(lib_sites, tsites):
         res.violate("terminal-sites-differ", detail={"library": lib_sites, "oracle": tsites})
     free = np.setdiff1d(np.arange(rm.n), tsites)
-    frames, _ = drivers.read_frames("out.h5")
-    with h5py.File("out.h5", "r") as f:
+    frames, _ = drivers.read_frames(path)
+    with h5py.File(path, "r") as f:
         fixed_A = np.array(f["applied_vector_potential"]) if "applied_vector_potential" in f else None
         eps = np.array(f["epsilon"]) if "epsilon" in f else None
     gamma, u = dev.layer.gamma, dev.layer.u
@@ -228,4 +266,4 @@ def run_none(case):
 
 
 def run_case(case):
-    return run_pin(case) if case["fam"] == "pin" else run_none(case)
+    return {"pin": run_pin, "none": run_none, "seq": run_seq}[case["fam"]](case)
